@@ -92,7 +92,12 @@ func c02InternalRun(t rt.TB, c c02Internal, quiet bool) {
 		var observer ro.Observer[int] = rec
 		if quiet {
 			sum := 0
-			observer = ro.NewObserver(func(v int) { sum += v }, func(error) {}, func() {})
+			nap := func() {
+				if c.DwellUs > 0 {
+					time.Sleep(time.Duration(c.DwellUs) * time.Microsecond) // sleeping orders nothing for the race detector
+				}
+			}
+			observer = ro.NewObserver(func(v int) { sum += v; nap() }, func(error) { nap() }, func() { nap() })
 		} else if c.DwellUs > 0 {
 			rec.Hook = func(k byte, _ context.Context, v any, err error) { time.Sleep(time.Duration(c.DwellUs) * time.Microsecond) }
 		}
